@@ -10,5 +10,7 @@ ML == ("l1" :> {"Alpha", "Beta"} @@ "l2" :> {"Beta", "Gamma"})
 M2 == ("i1" :> {"A", "b", "C"} @@ "i2" :> {"A", "b", "C"})
 AllOps == {"Mock", "Reset", "Drop", "GC", "Call"}
 HeldOps == {"Mock", "Held", "Reset", "Call"}
+HeldGcOps == {"Mock", "Held", "Reset", "Drop", "GC", "Call"}
+M1a == ("i1" :> {"A"})
 AllHeldOps == AllOps \cup {"Held"}
 ====
